@@ -562,7 +562,9 @@ fn c04_eval(case: &C04Case, rep: &Report, corpus: &[(String, String)]) -> Result
                         rep.class("irgen-failed");
                         Ok(())
                     }
-                    Ok((res, _)) => c04_judge(res, &passes, rep, || json!({"tape": tape, "no_trap": no_trap, "passes": passes, "src": src}), hash64(format!("{}|{}|{:?}", tape_hash(tape), no_trap, passes).as_bytes())),
+                    Ok((res, _)) => c04_judge(res, &passes, rep, || json!({"tape": tape, "no_trap": no_trap, "passes": passes, "src": src}), hash64(format!("{}|{}|{:?}", tape_hash(tape), no_trap, passes).as_bytes()), &|alt: &[&'static str]| {
+                        matches!(fc.with_fresh_ir(&t, |ir| (run_passes(ir, alt, true).is_ok(), false)), Ok((true, _)))
+                    }),
                 }
             })
         }
@@ -590,13 +592,18 @@ fn c04_eval(case: &C04Case, rep: &Report, corpus: &[(String, String)]) -> Result
                 }
                 rep.class("corpus:valid-ir");
                 let res = run_passes(&mut ir, &passes, true);
-                c04_judge(res, &passes, rep, || json!({"ir_file": name, "passes": passes}), hash64(format!("{name}|{:?}", passes).as_bytes()))
+                drop(ir);
+                c04_judge(res, &passes, rep, || json!({"ir_file": name, "passes": passes}), hash64(format!("{name}|{:?}", passes).as_bytes()), &|alt: &[&'static str]| {
+                    parse_ir(engines, text).map(|mut ir2| run_passes(&mut ir2, alt, true).is_ok()).unwrap_or(false)
+                })
             })
         }
     }
 }
 
-fn c04_judge(res: Result<Vec<bool>, PassFail>, passes: &[&'static str], rep: &Report, replay: impl Fn() -> Value, h: u64) -> Result<(), Fail> {
+pub const SIG04_MEM2REG_UNREACHABLE: &str = "pass:mem2reg:branch-from-unreachable-block-not-given-the-new-argument";
+
+fn c04_judge(res: Result<Vec<bool>, PassFail>, passes: &[&'static str], rep: &Report, replay: impl Fn() -> Value, h: u64, rerun: &dyn Fn(&[&'static str]) -> bool) -> Result<(), Fail> {
     rep.eval();
     for p in take_over_reported() {
         rep.class(&format!("modified-flag-over-reported(benign):{p}"));
@@ -614,8 +621,19 @@ fn c04_judge(res: Result<Vec<bool>, PassFail>, passes: &[&'static str], rep: &Re
             Ok(())
         }
         Err(pf) => {
-            let sig = pf.signature();
+            let mut sig = pf.signature();
             let summary = format!("after passes [{}], pass #{} `{}` {}: {}", passes[..pf.index].join(","), pf.index, pf.pass, if pf.panic { format!("panicked at {}", pf.location) } else { "left IR the verifier rejects".into() }, truncate(&pf.message, 400));
+            // recorded finding: mem2reg walks the dominator tree, so a branch in an *unreachable* block (left behind by
+            // const-folding a cbr; simplify-cfg would delete the block) is not given the argument of a block parameter mem2reg
+            // adds. Attributed only when the same sequence with simplify-cfg inserted directly before the failing mem2reg passes.
+            if pf.pass == sway_ir::MEM2REG_NAME && !pf.panic && pf.message.contains("Block parameter passed in branch is malformed") {
+                let mut alt: Vec<&'static str> = passes[..pf.index].to_vec();
+                alt.push(sway_ir::SIMPLIFY_CFG_NAME);
+                alt.push(sway_ir::MEM2REG_NAME);
+                if rerun(&alt) {
+                    sig = SIG04_MEM2REG_UNREACHABLE.to_string();
+                }
+            }
             let mut rp = replay();
             rp["failed_pass_index"] = json!(pf.index);
             rp["message"] = json!(truncate(&pf.message, 2000));
